@@ -50,6 +50,17 @@ def run(ctx):
     side_rules(ctx, cg)
     # ---- side conditions of the reviewed entries (evaluated lazily, once)
     side = RV.SideConditions(ctx)
+    n_sites, n_dis, by_rule = check_sites(ctx, D, side, reach, "site")
+    ctx.floor("site", "panic-capable sites enumerated", n_sites, 300 if ctx.config == "default" else 60)
+    ctx.floor("site", "sites discharged by the engine", n_dis, 150 if ctx.config == "default" else 30)
+    ctx.notes.append("engine discharges by rule: %s" % sorted(by_rule.items()))
+    # ---- termination
+    _termination(ctx, cg, reach)
+
+
+def check_sites(ctx, D, side, reach, rule):
+    """every panic-capable site of the bodies in `reach` is discharged by the engine or covered by a reviewed entry valid for ctx.prop"""
+    P = ctx.P
     counts = {}
     seen_keys = {}
     n_sites = n_dis = 0
@@ -61,7 +72,7 @@ def run(ctx):
             for s in oblig.sites_of(P, b):
                 n_sites += 1
                 consts_only = all("k" in a for _, tm in b.calls() for a in tm["args"] if op_place(a) is None) and True
-                ctx.ok("site", "init:%s" % s.what, ctx.where(b, s.span), "lazy_static initialiser: registration with constant arguments, independent of any input")
+                ctx.ok(rule, "init:%s" % s.what, ctx.where(b, s.span), "lazy_static initialiser: registration with constant arguments, independent of any input")
             continue
         ss = oblig.sites_of(P, b)
         if ss:
@@ -75,32 +86,28 @@ def run(ctx):
             if d:
                 n_dis += 1
                 by_rule[d[0]] = by_rule.get(d[0], 0) + 1
-                ctx.ok("site", "%s:%s:%s" % (s.kind, d[0], _short(P, D, s)), ctx.where(b, s.span), d[1])
+                ctx.ok(rule, "%s:%s:%s" % (s.kind, d[0], _short(P, D, s)), ctx.where(b, s.span), d[1])
                 continue
             key = oblig.site_key(P, D, s)
             h = key.rsplit("#", 1)[1]
             counts[h] = counts.get(h, 0) + 1
             seen_keys[h] = (key, b, s)
-            ent = RV.REVIEWED.get(h)
-            if ent is not None and counts[h] <= ent.get("count", 1) and ctx.prop in ent.get("props", ("C05", "C19")):
+            ent = next((e for e in RV.REVIEWED.get(h, ()) if ctx.prop in e["props"]), None)
+            if ent is not None and counts[h] <= ent.get("count", 1):
                 void = [c for c in ent.get("requires", ()) if not side.holds(c)]
                 if void:
-                    ctx.bad("site", "reviewed-but-side-condition-failed:%s" % key, ctx.where(b, s.span),
+                    ctx.bad(rule, "reviewed-but-side-condition-failed:%s" % key, ctx.where(b, s.span),
                             "this site is safe only while %s holds, and that rule fails on this tree" % ", ".join(void))
                 else:
-                    ctx.ok("site", "reviewed:%s:%s" % (ent["class"], key), ctx.where(b, s.span), ent["why"])
+                    ctx.ok(rule, "reviewed:%s:%s" % (ent["class"], key), ctx.where(b, s.span), ent["why"])
                 continue
             pr = D.prover(b)
             n = len(b.blocks[s.bb]["stmts"])
             ops = [show(oblig.canon(pr.T.operand(o, s.bb, n)))[:120] for o in s.ops[:2]]
-            ctx.bad("site", "undischarged:%s" % key, ctx.where(b, s.span),
+            ctx.bad(rule, "undischarged:%s" % key, ctx.where(b, s.span),
                     "%s can panic here and neither a dominating guard, a value range, a verified invariant nor a reviewed reason rules it "
                     "out (operands: %s)%s" % (s.what, "; ".join(ops), "; more sites of this shape than were reviewed" if ent is not None else ""))
-    ctx.floor("site", "panic-capable sites enumerated", n_sites, 300 if ctx.config == "default" else 60)
-    ctx.floor("site", "sites discharged by the engine", n_dis, 150 if ctx.config == "default" else 30)
-    ctx.notes.append("engine discharges by rule: %s" % sorted(by_rule.items()))
-    # ---- termination
-    _termination(ctx, cg, reach)
+    return n_sites, n_dis, by_rule
 
 
 def side_rules(ctx, cg):
@@ -170,7 +177,7 @@ CURSOR_FNS = ("get_u8", "get_u16", "get_u32", "get_be16", "get_be32", "get_bytes
               "read_exact", "next", "get_type", "get_class", "changed", "sleep", "sleep_until", "select", "poll", "tick")
 
 
-def _termination(ctx, cg, reach):
+def _termination(ctx, cg, reach, loops_floor=40):
     P = ctx.P
     n = 0
     for r in reach:
@@ -236,7 +243,7 @@ def _termination(ctx, cg, reach):
                     ctx.ok("term", "loop:reviewed:%s" % r.split("::")[-1], ctx.where(b), ent)
                 else:
                     ctx.bad("term", key, ctx.where(b), "cannot see what bounds this loop: no finite iterator, no input-consuming call, no constant-step counter")
-    ctx.floor("term", "loops in scope", n, 40 if ctx.config == "default" else 8)
+    ctx.floor("term", "loops in scope", n, loops_floor if ctx.config == "default" else min(loops_floor, 8))
     # recursion: every function that calls itself (exactly: same resolved instance) must shrink its argument or carry fuel.
     # Calls through a trait on a generic element type (Vec<T>::serialise -> T::serialise) recurse over the finite type, not the input.
     rec = set()
@@ -266,6 +273,22 @@ def _termination(ctx, cg, reach):
                 for y in subterms(a):
                     if y[0] == "call" and oblig.INDEX_FNS.search(str(y[1])) and len(y[2]) == 2 and norm(y[2][0])[0] == "param":
                         okk, why = True, "strict sub-slice of the parameter"
+            # structural recursion over an owned value: the argument is a strict part of a parameter (element, field, payload)
+            for a in args:
+                y, steps = a, 0
+                for _ in range(12):
+                    if y[0] in ("payload", "downcast"):
+                        y, steps = norm(y[2]) if y[0] == "payload" else norm(y[1]), steps + 1
+                    elif y[0] in ("field", "index"):
+                        y, steps = norm(y[1]), steps + 1
+                    elif y[0] in ("deref", "ref"):
+                        y = norm(y[1] if y[0] == "deref" else y[-1])
+                    elif y[0] == "call" and str(y[1]).rsplit("::", 1)[-1] in ("first", "last", "get", "next", "iter", "as_ref", "deref", "as_slice") and y[2]:
+                        y, steps = norm(y[2][0]), steps + (1 if str(y[1]).rsplit("::", 1)[-1] in ("first", "last", "get", "next") else 0)
+                    else:
+                        break
+                if steps and y[0] == "param":
+                    okk, why = True, "a strict part of the parameter (finite owned value)"
             # structural recursion over an owned tree: the argument is reached through a field of the parameter
             for a in args:
                 if any(y[0] == "field" and y[2] in ("policies", "children") for y in subterms(a)) or any(
